@@ -151,7 +151,7 @@ type byzDealer struct {
 }
 
 var shareKinds = []string{"ok", "ok", "ok", "omit", "bad-tag", "wrong-size", "zero", "too-big", "wrong-value", "late", "duplicate", "empty"}
-var vecKinds = []string{"ok", "ok", "ok", "ok", "omit", "late", "wrong-size", "bad-point", "not-in-g2", "duplicate", "twice-different"}
+var vecKinds = []string{"ok", "ok", "ok", "ok", "omit", "late", "wrong-size", "bad-point", "not-in-g2", "cancelling-non-g2", "duplicate", "twice-different"}
 var answerKinds = []string{"ok", "ok", "omit", "wrong", "wrong-size", "bad-complainer", "zero", "duplicate", "late", "unsolicited-first"}
 var extraKinds = []string{"", "", "", "empty-bcast", "bad-tag", "malformed-complaint", "complaint-big-index", "complain-about-self", "unsolicited-answer", "spurious-complaint"}
 
@@ -181,6 +181,13 @@ func (nt *dkgNet) byzVector(b *byzDealer) []byte {
 		v[1] = 0xe0
 	case "not-in-g2":
 		copy(v[1:], askBytes("e2 off 0"))
+	case "cancelling-non-g2":
+		// A_0 + T and A_1 - T for a point T outside G2: each entry is outside G2, their sum is the honest sum
+		T := askBytes("e2 torsion 0")
+		a0 := append([]byte{}, v[1:97]...)
+		a1 := append([]byte{}, v[97:193]...)
+		copy(v[1:], askBytes("e2 add "+hx(a0)+" "+hx(T)))
+		copy(v[97:], askBytes("e2 add "+hx(a1)+" "+hx(askBytes("e2 neg "+hx(T)))))
 	}
 	return v
 }
@@ -539,7 +546,7 @@ func dkgPredicates(nt *dkgNet, bds []*byzDealer, prop string) string {
 // x share kinds (incl. the constant term of the polynomial as share, which matches a truncated vector).
 func genFvssOrders(c *Ctx) {
 	n, t, me, dealer := 4, 2, 1, 0
-	for _, vk := range []string{"ok", "wrong-size", "short-by-one-point", "bad-point", "bad-point-last", "not-in-g2", "not-in-g2-last", "identity-points", "duplicate", "empty-payload"} {
+	for _, vk := range []string{"ok", "wrong-size", "short-by-one-point", "bad-point", "bad-point-last", "not-in-g2", "not-in-g2-last", "cancelling-non-g2", "identity-points", "duplicate", "empty-payload"} {
 		for _, sk := range []string{"ok", "a0", "wrong-value", "wrong-size", "zero"} {
 			for order := 0; order < 2; order++ {
 				p := c.randPoly(t)
@@ -557,6 +564,12 @@ func genFvssOrders(c *Ctx) {
 					copy(v[1:], askBytes("e2 off 0"))
 				case "not-in-g2-last":
 					copy(v[1+96*t:], askBytes("e2 torsion 1"))
+				case "cancelling-non-g2":
+					T := askBytes("e2 torsion 0")
+					a0 := append([]byte{}, v[1:97]...)
+					a1 := append([]byte{}, v[97:193]...)
+					copy(v[1:], askBytes("e2 add "+hx(a0)+" "+hx(T)))
+					copy(v[97:], askBytes("e2 add "+hx(a1)+" "+hx(askBytes("e2 neg "+hx(T)))))
 				case "identity-points":
 					for j := 1; j <= t; j++ {
 						inf := make([]byte, 96)
